@@ -8,11 +8,13 @@ CONSTANTS
   OpTheories = {"A", "B"}
   OpModules = {}
   Present0 <- fPresent
+  Origin <- fOrigin
   Items0 <- fItems0
   LimitsOf <- fLimits
   FileOps <- fFileOps
   Variants <- fVariants
   GoodVariants <- Fixed
+  PrintGood = FALSE
   MaxOps = 4
   MaxDepth = 40
   AllowFault = FALSE
